@@ -33,7 +33,7 @@ def run_with_scenarios(mod, ctx):
     skipped = []
     import time as _t
     t_generic = _t.time() - ctx.t0
-    budget = max(60.0, 4.0 * t_generic)        # alternative scenarios are bounded in time as well as in number
+    budget = max(float(os.environ.get("VERIF_ALT_BUDGET", "60")), 4.0 * t_generic)        # alternative scenarios are bounded in time as well as in number
     t_alt0 = _t.time()
     for alt in alts[:MAX_ALTS]:
         if _t.time() - t_alt0 > budget:
